@@ -109,6 +109,7 @@ type FnTrans struct {
 	assumpTerms []string
 	knownRefs map[string]bool
 	strPairs map[string]bool
+	skCache map[string]string
 	f64bitsCache map[string]string
 	subRefSeen map[string]bool
 	subRefTerms []string
